@@ -435,6 +435,13 @@ impl {node_enum_name} {{
             return self.get_empty_fieldset_src(options);
         }
 
+        // The fields of a tuple struct are public, like those of a named struct.
+        // (The fields of an enum variant are always public.)
+        let pub_ = if options.use_pub_on_named_fields {
+            "pub "
+        } else {
+            ""
+        };
         let fields_indent_1 = fieldset
             .fields
             .iter()
@@ -442,12 +449,12 @@ impl {node_enum_name} {{
                 TupleField::Skipped(_) => None,
                 TupleField::Used(IdentOrTerminalIdent::Ident(field_type)) => {
                     let field_type_name = &field_type.name;
-                    Some(format!("Box<{field_type_name}>,"))
+                    Some(format!("{pub_}Box<{field_type_name}>,"))
                 }
                 TupleField::Used(IdentOrTerminalIdent::Terminal(field_type)) => {
                     let field_type_name =
                         self.file.terminal_enum.get_type(&field_type.name).unwrap();
-                    Some(format!("{field_type_name},"))
+                    Some(format!("{pub_}{field_type_name},"))
                 }
             })
             .collect::<Vec<_>>()
